@@ -20,7 +20,7 @@ ASSUMPTIONS = [
     'one target channel per fire; priorities of harness events all 0',
     'expected set of an event nobody handled is accepted if it was empty at some model version while the event was pending',
 ]
-REQUIRED = ['warm_dispatch_after_add', 'warm_dispatch_after_rm', 'warm_dispatch_after_reg', 'warm_dispatch_after_unreg',
+REQUIRED = ['method_declared_not_a_handler_in_a_Component_subclass', 'warm_dispatch_after_add', 'warm_dispatch_after_rm', 'warm_dispatch_after_reg', 'warm_dispatch_after_unreg',
             'detached_subtree_dispatch', 'instance_channel_dispatch', 'global_handler_dispatch', 'inherited_handler_dispatch',
             'implicit_method_dispatch', 'ops_inside_handlers', 'pre_registration_event', 'fire_overlapping_unregister',
             'same_event_object_fired_on_two_channels', 'channels_preset_on_event', 'component_with_several_handler_declaring_bases']
@@ -102,6 +102,12 @@ class World:
             f = self._mkfunc(cid, 'm:' + m, m)
             ns[m] = f
             decl['m:' + m] = {'names': [m], 'channel': None, 'kind': 'implicit'}
+        for m in c.get('nohandler', []):
+            # a public method explicitly declared NOT to be a handler (@handler(False)): it is in no handler set, whatever the class kind
+            if m in ns:
+                continue
+            ns[m] = self.handler(False)(self._mkfunc(cid, 'n:' + m, m))
+            self.marks.add('method_declared_not_a_handler' + ('_in_a_Component_subclass' if c['kind'] == 'comp' else ''))
         if c.get('base'):
             for hd in c['base']['handlers']:
                 shadow = own_attrs.get(hd['attr'])
@@ -435,10 +441,12 @@ def H(hid, names, channel=None, attr=None, override=False, priority=0):
             'priority': priority}
 
 
-def comp(cid, channel=None, handlers=(), kind='base', base=None, methods=(), mixins=()):
+def comp(cid, channel=None, handlers=(), kind='base', base=None, methods=(), mixins=(), nohandler=()):
     c = {'cid': cid, 'kind': kind, 'channel': channel, 'handlers': list(handlers), 'base': base, 'methods': list(methods)}
     if mixins:
         c['mixins'] = list(mixins)
+    if nohandler:
+        c['nohandler'] = list(nohandler)
     return c
 
 
@@ -491,6 +499,15 @@ def corpus():
         comp(2, 'a', [H(17, ['pong'])], kind='comp', methods=['pong'])], 'ops': [
         ['reg', 1, 0], ['reg', 2, 0], [F, 0, 'ping', None], [F, 0, 'pong', None], [F, 0, 'zap', None], S,
         [F, 0, 'pong', 'a'], [F, 0, 'pong', 'b'], S, ['rm', 0, 11], [F, 0, 'ping', None], S, ['rm', 1, 'm:zap'], [F, 0, 'zap', None], S]})
+    # 5a. public methods declared NOT to be handlers (@handler(False)) next to implicit and explicit ones, in both kinds of class, attached
+    #     and detached, addressed by channel, wildcard and instance
+    cases.append({'name': 'not-a-handler', 'comps': [
+        comp(0, None, [H(20, ['ping'])], kind='comp', methods=['pong'], nohandler=['zap', 'ping']),
+        comp(1, 'a', [H(21, ['zap'])], kind='comp', methods=['ping'], nohandler=['pong']),
+        comp(2, None, [H(22, ['zap'], '*')], kind='base', nohandler=['ping', 'pong'])], 'ops': [
+        ['reg', 1, 0], ['reg', 2, 1], [F, 0, 'ping', None], [F, 0, 'pong', None], [F, 0, 'zap', None], S,
+        [F, 0, 'ping', 'a'], [F, 0, 'pong', 'a'], [F, 0, 'zap', '*'], [F, 0, 'pong', ['inst', 1]], [F, 0, 'zap', ['inst', 0]], S,
+        ['unreg', 1], [F, 1, 'pong', None], [F, 1, 'ping', 'a'], [F, 2, 'ping', None], S, [F, 0, 'zap', None], S]})
     # 5b. several direct bases (mixins) declaring handlers under the same method names; the subclass redeclares one (without override),
     #     overrides another, leaves the third alone; three mixins with an empty subclass
     m1 = {'handlers': [H(20, ['ping'], attr='foo'), H(21, ['ping'], attr='bar'), H(22, ['pong'], attr='baz')]}
@@ -558,7 +575,8 @@ def gen_case(rng):
                 # one method name is declared once per class
                 seen_attr = set()
                 mixins[-1]['handlers'] = [h for h in mixins[-1]['handlers'] if not (h['attr'] in seen_attr or seen_attr.add(h['attr']))]
-        comps.append(comp(cid, channel, hs, kind=kind, base=base, methods=methods, mixins=mixins))
+        nohandler = [m for m in rng.sample(NAMES, rng.randint(1, 2)) if m not in methods] if rng.random() < 0.3 else []
+        comps.append(comp(cid, channel, hs, kind=kind, base=base, methods=methods, mixins=mixins, nohandler=nohandler))
     all_hids = {c['cid']: [h['hid'] for h in c['handlers']] + ['m:' + m for m in c['methods']] +
                 ([h['hid'] for h in c['base']['handlers']] if c['base'] else []) for c in comps}
 
